@@ -36,10 +36,11 @@ func (g *implGen) typePool(ifcQual string) []tyAlt {
 }
 
 type msig struct {
-	name     string
-	params   []int // indices into the pool
-	variadic bool  // last param variadic
-	results  []int
+	name      string
+	params    []int // indices into the pool
+	variadic  bool  // last param variadic
+	sliceLast bool  // last param written []T (what a variadic ...T looks like from inside, a different signature)
+	results   []int
 }
 
 func (g *implGen) randSig(pool []tyAlt, name string) msig {
@@ -50,6 +51,8 @@ func (g *implGen) randSig(pool []tyAlt, name string) msig {
 	}
 	if len(s.params) > 0 && r.Chance(1, 4) {
 		s.variadic = true
+	} else if len(s.params) > 0 && r.Chance(1, 6) {
+		s.sliceLast = true
 	}
 	for k := r.Intn(3); k > 0; k-- {
 		s.results = append(s.results, r.Intn(len(pool)))
@@ -71,6 +74,8 @@ func (g *implGen) sigText(pool []tyAlt, s msig, alt bool, names bool) (params st
 		t := pick(p)
 		if s.variadic && i == len(s.params)-1 {
 			t = "..." + t
+		} else if s.sliceLast && i == len(s.params)-1 {
+			t = "[]" + t
 		}
 		if names {
 			t = fmt.Sprintf("p%d %s", i, t)
@@ -214,10 +219,18 @@ func GenerateImpl(seed uint64, root string) *Module {
 	} else {
 		b.WriteString(fmt.Sprintf("\t%q\n", g.base+"/deep/yaml.v3"))
 	}
+	second := ""
+	if r.Chance(1, 3) {
+		second = "wire"
+		b.WriteString(fmt.Sprintf("\twire %q\n", g.base+"/ifc"))
+	}
 	b.WriteString(")\n\n")
 	yq := "yaml."
 	if yamlAlias != "" {
 		yq = yamlAlias + "."
+	}
+	if second != "" {
+		b.WriteString("var _ " + second + ".Data\n")
 	}
 	b.WriteString("var _ " + qual + "Data\nvar _ " + yq + "Data\n\ntype Local struct{ L int }\n\ntype Str = string\n\ntype PData = *" + qual + "Data\n\n")
 	// a local interface too
@@ -273,6 +286,9 @@ func GenerateImpl(seed uint64, root string) *Module {
 			q = strings.TrimSuffix(qual, ".")
 			if ifcAlias != "" && r.Chance(1, 6) {
 				q = "ifc" // declared name although an alias is in force: resolves by declared name
+			}
+			if second != "" && r.Chance(1, 2) {
+				q = second // the name bound by the second import of the same package
 			}
 		case "yaml":
 			q = "yaml" // declared name (differs from the last path element yaml.v3)
@@ -355,7 +371,11 @@ func GenerateImpl(seed uint64, root string) *Module {
 					ms.results = append(append([]int{}, ms.results...), 0)
 				}
 			case 7:
-				if ms.variadic {
+				if ms.variadic && r.Bool() {
+					ms.variadic, ms.sliceLast = false, true // ...T against []T
+				} else if ms.sliceLast {
+					ms.variadic, ms.sliceLast = true, false
+				} else if ms.variadic {
 					ms.variadic = false
 				} else if len(ms.params) > 0 {
 					ms.variadic = true
